@@ -153,7 +153,7 @@ def rule_r1(ctx) -> RuleResult:
 
 
 def rule_r2(ctx) -> RuleResult:
-    rr = RuleResult("C18.R2", "no str/int comparison in registered parser functions", min_instances=5)
+    rr = RuleResult("C18.R2", "no str/int comparison in registered parser functions", min_instances=1)
     cg = CallGraph(ctx.index)
     m = ctx.index.mod("parserfns")
     returns_str = {q for q, f in m.funcs.items() if "." not in q and f.returns is not None and unparse(f.returns) == "str"}
